@@ -24,6 +24,7 @@ import (
 	"github.com/xuperchain/xupercore/protos"
 
 	"github.com/golang/protobuf/proto"
+	cryptoCommon "github.com/xuperchain/crypto/core/common"
 )
 
 // ImmediateVerifyTx verify tx Immediately
@@ -309,6 +310,15 @@ func (t *State) verifyXuperSign(tx *pb.Transaction, digestHash []byte) (bool, ma
 		if !ok {
 			t.log.Warn("XuperSign: address and public key not match", "addr", addr, "pubkey", pubkeys[idx])
 			return false, nil, errors.New("XuperSign: address and public key not match")
+		}
+	}
+	if len(pubkeys) > 1 {
+		// every kind of signature except the multi-signature is checked by the crypto library
+		// against the FIRST key only: it proves one signer, not all the addresses listed
+		xuperSig := &cryptoCommon.XuperSignature{}
+		if err := json.Unmarshal(tx.GetXuperSign().GetSignature(), xuperSig); err != nil || xuperSig.SigType != cryptoCommon.MultiSig {
+			t.log.Warn("XuperSign: several signers need a multi-signature", "signers", len(pubkeys))
+			return false, nil, errors.New("XuperSign: several signers need a multi-signature")
 		}
 	}
 	ok, err := t.sctx.Crypt.VerifyXuperSignature(pubkeys, tx.GetXuperSign().GetSignature(), digestHash)
